@@ -1028,7 +1028,14 @@ class ExcelCompiler:
 
             self.log.debug(f"Handling {dependant.address}")
 
-            for precedent_address in dependant.needed_addresses:
+            try:
+                needed_addresses = dependant.needed_addresses
+            except Exception as exc:
+                # a formula which does not compile, still connect the other cells
+                failure = failure or exc
+                continue
+
+            for precedent_address in needed_addresses:
                 try:
                     if precedent_address.address not in self.cell_map:
                         self._gen_graph(precedent_address, recursed=True)
